@@ -75,7 +75,7 @@ type c16step struct {
 	// RemovePrev: the child loaded in the previous step is removed from the engine before this one is rendered.
 	Reload     bool `json:"reload,omitempty"`
 	RemovePrev bool `json:"remove_prev,omitempty"`
-	Entry   int      `json:"entry"`
+	Entry      int  `json:"entry"`
 }
 
 func (c16) Gen(r *sim.Rand, c *sim.Case, tier string) {
